@@ -365,6 +365,27 @@ inline RunResult run_chunks(const Ctx &ctx, const std::string &label, uint64_t t
       exit(2);
     }
     std::string d = describe ? describe(cur) : "{}";
+    if (sig == "hang") {
+      // a case that made no progress for hangSeconds is run once more on its own with eight times the limit before it is called a hang: slow is not the same as stuck
+      std::string f2 = ctx.scratch + "/" + label + ".confirm." + std::to_string(cur) + ".st";
+      fflush(stdout); fflush(stderr);
+      pid_t c = fork();
+      if (c == 0) { child_limits(asBytes); Stats st2; volatile uint64_t dummy = ~0ull; on_big_stack([&] { body(cur, cur + 1, {}, st2, &dummy); }); st2.save(f2); _exit(0); }
+      double t0 = now(); int cst = 0; bool done = false;
+      while (now() - t0 < 8 * hangSeconds) { pid_t r = waitpid(c, &cst, WNOHANG); if (r == c) { done = true; break; } usleep(5000); }
+      if (!done) { kill(c, SIGKILL); waitpid(c, &cst, 0); }
+      Stats st2;
+      if (done && WIFEXITED(cst) && WEXITSTATUS(cst) == 0 && st2.load(f2)) {
+        unlink(f2.c_str());
+        rr.stats.merge(st2); rr.stats.add("slow_cases_finished_when_run_alone");
+        rr.stats.sample(mc::Obj().kv("slow_case_seconds", now() - t0).raw("case", d).str(), 3);
+        auto skip = j.skip; skip.insert(cur);
+        retryChunk.push_back(j.chunk); retrySkip.push_back(skip);
+        continue;
+      }
+      unlink(f2.c_str());
+      if (done) sig = WIFSIGNALED(cst) ? std::string("crash:signal") + std::to_string(WTERMSIG(cst)) : "crash:exit" + std::to_string(WIFEXITED(cst) ? WEXITSTATUS(cst) : -1);
+    }
     rr.stats.violation(crashSigPrefix + sig, cur, mc::Obj().kv("index", cur).kv("effect", sig).raw("case", d).str());
     auto skip = j.skip; skip.insert(cur);
     if (skip.size() > 2000) { fprintf(stderr, "[mc] more than 2000 crashing cases in one chunk; chunk abandoned\n"); rr.complete = false; continue; }
